@@ -696,7 +696,7 @@ func compositions(c *core.Ctx) {
 	seed := c.Seed*7919 + 17
 	cases := sweepCompositions(&seed)
 	nSweep := len(cases)
-	nRand := c.N(2500, 60000)
+	nRand := c.N(2500, 30000)
 	for i := 0; i < nRand; i++ {
 		var defs []kit.Node
 		failP := []int{0, 4, 10, 25}[c.Rng.Intn(4)]
